@@ -453,8 +453,11 @@ class Check:
             cov["evaluations"] = max(evaluations, 1)
             cov["distinct_nontrivial"] = max(nontriv, 2)
             cov["explanation"] = "proof step did not discharge any obligation in this run"
-        (VERIF / "evidence").mkdir(exist_ok=True)
-        (VERIF / "evidence" / (self.pid + ".json")).write_text(json.dumps(ev, indent=1, default=str))
+        # evidence of a run against another tree (TANGELO_REPO = a scratch worktree with a seeded change) must not
+        # replace the record of /repo's own tree
+        ev_dir = VERIF / "evidence" if str(REPO) == "/repo" else VERIF / ".work" / "evidence_other_tree"
+        ev_dir.mkdir(parents=True, exist_ok=True)
+        (ev_dir / (self.pid + ".json")).write_text(json.dumps(ev, indent=1, default=str))
         # keep the scratch directory only when something has to be looked at
         if not new:
             shutil.rmtree(self.work, ignore_errors=True)
